@@ -69,6 +69,7 @@ func callOfPath(p *pgen.Program, callPath string) *pgen.Call {
 type VdrStats struct {
 	ResetAttemptFiles                                              int // files of job attempts that mrp reset (restart / retry)
 	InterruptedRemovals                                            int // removals by an interrupted mrp whose report was never written
+	SurvivalNotJudged                                              int // files of executions the model only tolerates (stage independent of an empty mapped dimension)
 	Removals, Reports, WrittenChecked, TmpDirsChecked, ListedPaths int
 }
 
@@ -330,6 +331,11 @@ func CheckVDR(o *Obs, p *pgen.Program, m *pgen.Model, r *Report, mode string, tr
 				chunkLevel := stg.Split && e.Phase == "main"
 				if exists && chunkLevel {
 					r.add("C14", "chunk-file-survives", fmt.Sprintf("chunk-level file of splitting stage %s still present after completion: %s", f.CallPath, o.Case.Canon(w.Path)), nil)
+				} else if m.IndepOfEmpty[f.CallPath] > 0 {
+					// a stage inside a pipeline mapped over an empty collection that ran all the same
+					// (C03's known finding): the model did not evaluate the return / retain bindings
+					// of that pipeline, so whether its files are named by one is not known here
+					st.SurvivalNotJudged++
 				} else if exists && volatile && !(w.Tok != "" && keep[w.Tok]) && !underKept(w.Path, e.Written, keep) {
 					r.add("C14", "volatile-file-survives"+consumedHow(p, f.CallPath, w.Path), fmt.Sprintf("file %s written by volatile stage call %s (mode %s) survives although no top-level output or retain names it", o.Case.Canon(w.Path), f.CallPath, mode), nil)
 				}
